@@ -603,12 +603,22 @@ def run(tier, seed, replay):
         kids = [k_.get("kid") for k_ in d["keys"]]
         if len(set(kids)) != len(kids):
             probs.append(("multi:duplicate-kid", str(kids)[:200]))
+        nbad = 0
+        if round_ % 2 == 1:
+            # every second round: one or two entries that do not import (an off-curve EC point, an oct key without k) are put between the
+            # good ones, at the front or at the end: every good key is still written back, whatever the tool does about the bad ones
+            BAD = [{"kty": "EC", "crv": "P-256", "x": "AQIDBAUGBwgJCgsMDQ4PEBESExQVFhcYGRobHB0eHyA", "y": "ICEiIyQlJicoKSorLC0uLzAxMjM0NTY3ODk6Ozw9Pj8", "kid": "broken-ec"},
+                   {"kty": "oct", "kid": "broken-oct"}, {"kty": "RSA", "n": "AAAA", "e": "AQAB", "kid": "broken-rsa"}]
+            for _ in range(r.choice([1, 1, 2])):
+                d["keys"].insert(r.choice([0, len(d["keys"]), r.randrange(len(d["keys"]) + 1)]), r.choice(BAD))
+                nbad += 1
+            json.dump(d, open(jpath, "w"))
         p = subprocess.run([T["jwk2key"], "-d", od, jpath], capture_output=True, env=env, cwd=wd)
-        if p.returncode != 0:
+        if p.returncode != 0 and not nbad:
             probs.append(("multi:jwk2key-exit", "rc %d %s" % (p.returncode, p.stderr.decode("latin-1")[-200:])))
         outs = sorted(os.listdir(od))
         if len(outs) != len(srcs):
-            probs.append(("multi:file-count", "%d keys, %d files written: %s" % (len(srcs), len(outs), p.stderr.decode("latin-1")[-200:])))
+            probs.append(("multi:file-count" + (":with-unusable-entries" if nbad else ""), "%d keys%s, %d files written: %s" % (len(srcs), " (+%d unusable entries)" % nbad if nbad else "", len(outs), p.stderr.decode("latin-1")[-200:])))
         unmatched = list(srcs)
         for of in outs:
             op = os.path.join(od, of)
